@@ -31,6 +31,10 @@ type RunSpec struct {
 	TraceFile string `json:"-"`
 }
 
+// traceCfgOverride lets a composite check (C20) record its own configuration
+// as the first line of the trace written by the sub-check it runs.
+var traceCfgOverride json.RawMessage
+
 // trace opens the incremental trace of a run (no-op without TraceFile).
 func trace(spec RunSpec, cfg json.RawMessage, w *netsim.World) {
 	if spec.TraceFile == "" {
@@ -39,6 +43,9 @@ func trace(spec RunSpec, cfg json.RawMessage, w *netsim.World) {
 	f, err := os.OpenFile(spec.TraceFile, os.O_CREATE|os.O_WRONLY|os.O_TRUNC, 0o644)
 	if err != nil {
 		return
+	}
+	if traceCfgOverride != nil {
+		cfg = traceCfgOverride
 	}
 	fmt.Fprintf(f, "%s\n", cfg)
 	if w != nil {
